@@ -68,7 +68,7 @@ def run(ctx: Context) -> None:
             zi = zero.targets[0].slice if isinstance(zero.targets[0], ast.Subscript) else None
             others = []
             for u in (zi, ear.iter):
-                if isinstance(u, ast.Name):
+                if isinstance(u, ast.Name) and tflow.resolve(u) is not conc.value:      # (a plain alias of the set resolves to it)
                     others += [d for d in tflow.defs_of(u) if d.stmt is not conc]
             conds = [f"`{t}` is {pol}" for t, pol in _facts(ctx, td, conc, expand=False)]
             ctx.check('R14.1', not others and not conds, "the concave cells are found for every dataset, whatever its convention or options: no other value (an empty set for grids "
@@ -223,26 +223,57 @@ def run(ctx: Context) -> None:
         c1 = mb.stmt(f"$c = shapely.get_coordinates(shapely.get_exterior_ring({pp}))")
         c2 = mb.stmt(f"$c = $c.reshape((len({pp}), $n + 1, 2))")
         c3 = mb.stmt('$c = $c[:, :-1, :]') or mb.stmt('$c = $c[:, :-1]')
-        ok = all(x is not None for x in (c1, c2, c3)) and _line(c1) < _line(c2) < _line(c3)
-        ctx.check('R14.2', ok, "coordinates are (polygon, vertex, xy) with the closing point dropped", tb, c1 or tb.node,
-                  construct='c = get_coordinates(rings); c = c.reshape((len(polygons), n + 1, 2)); c = c[:, :-1, :]')
+        ok_c = all(x is not None for x in (c1, c2, c3)) and _line(c1) < _line(c2) < _line(c3)
         v1 = mb.stmt('$v1 = $c[:, 1:-1]') or mb.stmt('$v1 = $c[:, 1:-1, :]')
         v2 = mb.stmt('$v2 = $c[:, 2:]') or mb.stmt('$v2 = $c[:, 2:, :]')
-        ok = v1 is not None and v2 is not None and c3 is not None and _line(v1) > _line(c3) and _line(v2) > _line(c3)
-        ctx.check('R14.2', ok, "v1 = vertices [1, n-1) and v2 = vertices [2, n): equal length n-2, shifted by one", tb, v1 or tb.node,
-                  construct='v1 = c[:, 1:-1]; v2 = c[:, 2:]')
+        ok_w = v1 is not None and v2 is not None and c3 is not None and _line(v1) > _line(c3) and _line(v2) > _line(c3)
         # vertex 0 of every polygon with the vertex axis kept, as (polygon, 1, xy)
         v0 = None
-        for first in ('$c[:, 0, :].reshape((-1, 1, 2))', '$c[:, 0].reshape((-1, 1, 2))', '$c[:, :1, :]', '$c[:, :1]', '$c[:, 0:1, :]', '$c[:, 0:1]', '$c[:, [0], :]', '$c[:, [0]]'):
+        FIRST = ('$c[:, 0, :].reshape((-1, 1, 2))', '$c[:, 0].reshape((-1, 1, 2))', '$c[:, :1, :]', '$c[:, :1]', '$c[:, 0:1, :]', '$c[:, 0:1]', '$c[:, [0], :]', '$c[:, [0]]')
+        for first in FIRST:
             v0 = v0 or mb.stmt(f'$v0 = numpy.repeat({first}, repeats=$$reps, axis=1)')
         ok0 = False
         if v0 is not None:
             reps = linear(bflow, mb.enodes.get('reps'), {mb.name('n'): symbol('n')})
             ok0 = reps == symbol('n') - const(2)
-        ctx.check('R14.2', ok0, "v0 = vertex 0 repeated n-2 times along the triangle axis", tb, v0 or tb.node, construct='v0 = numpy.repeat(c[:, 0, :].reshape((-1, 1, 2)), repeats=n - 2, axis=1)')
         st = mb.stmt('$out = numpy.stack([$v0, $v1, $v2], axis=2)')
-        ok = st is not None and all(isinstance(r.value, ast.Name) and r.value.id == mb.name('out') for r in tb.returns()) and tb.returns()
-        ctx.check('R14.2', bool(ok), "triangle k of a polygon is (v0, v1[k], v2[k]) stacked on the vertex axis", tb, st or tb.node,
+        ok_s = st is not None and all(isinstance(r.value, ast.Name) and r.value.id == mb.name('out') for r in tb.returns()) and bool(tb.returns())
+        if not (ok_c and ok_w and ok0 and ok_s) and vcn is not None and len(tb.returns()) == 1:
+            # the same arrays under other names, chained differently, or the shared vertex broadcast instead of repeated:
+            # the returned expression is compared with every local except n spelled out
+            from .common import expand_locals as _x14
+            nname = mb.name('n')
+            full = _x14(bflow, tb.returns()[0].value, depth=8, keep=[nname])
+            mx = Matcher(ctx, tb)
+            P = f"len({pp})"
+            C_FORMS = [f"shapely.get_coordinates(shapely.get_exterior_ring({pp})).reshape(({P}, {nname} + 1, 2))[:, :-1, :]",
+                       f"shapely.get_coordinates(shapely.get_exterior_ring({pp})).reshape(({P}, {nname} + 1, 2))[:, :-1]",
+                       f"shapely.get_coordinates(shapely.get_exterior_ring({pp})).reshape((-1, {nname} + 1, 2))[:, :-1, :]"]
+            if mx.match('numpy.stack([$$a, $$l, $$t], axis=2)', full, commit=True):
+                a_, l_, t_ = (mx.enodes[k] for k in ('a', 'l', 't'))
+                c_txt = next((c for c in C_FORMS if norm_text(l_) in (f"{c}[:, 1:-1]", f"{c}[:, 1:-1, :]")), None)
+                if c_txt is not None:
+                    ok_c2 = True
+                    ok_w2 = norm_text(t_) in (f"{c_txt}[:, 2:]", f"{c_txt}[:, 2:, :]")
+                    firsts = [f.replace('$c', c_txt) for f in FIRST]
+                    ok02 = False
+                    ma = Matcher(ctx, tb)
+                    for f in firsts:
+                        if ma.match(f"numpy.repeat({f}, repeats=$$reps, axis=1)", a_, commit=True):
+                            ok02 = linear(bflow, ma.enodes.get('reps'), {nname: symbol('n')}) == symbol('n') - const(2)
+                        # broadcasting the (polygon, 1, xy) slice to (polygon, n - 2, xy) repeats it along the middle axis, and only there
+                        elif ma.match(f"numpy.broadcast_to({f}, ($$p, $$reps, 2))", a_, commit=True):
+                            ok02 = linear(bflow, ma.enodes.get('reps'), {nname: symbol('n')}) == symbol('n') - const(2) and norm_text(ma.enodes['p']) == P
+                        if ok02:
+                            break
+                    ok_c, ok_w, ok0, ok_s = ok_c or ok_c2, ok_w or ok_w2, ok0 or ok02, True
+                    c1 = c1 or tb.returns()[0]
+        ctx.check('R14.2', ok_c, "coordinates are (polygon, vertex, xy) with the closing point dropped", tb, c1 or tb.node,
+                  construct='c = get_coordinates(rings); c = c.reshape((len(polygons), n + 1, 2)); c = c[:, :-1, :]')
+        ctx.check('R14.2', ok_w, "v1 = vertices [1, n-1) and v2 = vertices [2, n): equal length n-2, shifted by one", tb, v1 or tb.node,
+                  construct='v1 = c[:, 1:-1]; v2 = c[:, 2:]')
+        ctx.check('R14.2', ok0, "v0 = vertex 0 repeated n-2 times along the triangle axis", tb, v0 or tb.node, construct='v0 = numpy.repeat(c[:, 0, :].reshape((-1, 1, 2)), repeats=n - 2, axis=1)')
+        ctx.check('R14.2', bool(ok_s), "triangle k of a polygon is (v0, v1[k], v2[k]) stacked on the vertex axis", tb, st or tb.node,
                   construct='return numpy.stack([v0, v1, v2], axis=2)')
 
     # ---- R14.6
